@@ -2,7 +2,8 @@
 (* C01 stimuli: every construct of the core fragment nested in every other  *)
 (* one (outer templates with a hole x inner expressions), each evaluated in *)
 (* several scopes binding the free names x, y, xs, c to numbers, strings,   *)
-(* booleans, nulls, lists and contexts.  Expressions are printed as trees   *)
+(* booleans, nulls, lists and contexts (two scopes also bind the name `item`,*)
+(* which filters must shadow).  Expressions are printed as trees           *)
 (* and as fully parenthesised token sequences (the rendering of C06, so     *)
 (* that C01 does not depend on precedence).                                 *)
 EXTENDS FeelSyntax, FiniteSets, TLC, Json
@@ -83,12 +84,12 @@ VL(items) == [k |-> "list", items |-> items]
 VC(ents) == [k |-> "ctx", ents |-> ents]
 B(n, v) == [n |-> n, v |-> v]
 Scopes == <<
-  VC(<<B("x", VN(1, 0)), B("y", VN(2, 0)), B("xs", VL(<<VN(1, 0), VN(2, 0), VN(3, 0)>>)), B("c", VC(<<B("a", VN(1, 0)), B("b", VS(<<122>>))>>))>>),
+  VC(<<B("x", VN(1, 0)), B("y", VN(2, 0)), B("xs", VL(<<VN(1, 0), VN(2, 0), VN(3, 0)>>)), B("c", VC(<<B("a", VN(1, 0)), B("b", VS(<<122>>))>>)), B("item", VN(5, 0))>>),
   VC(<<B("x", VNull), B("y", VN(0, 0)), B("xs", VL(<<>>)), B("c", VC(<<>>))>>),
   VC(<<B("x", VS(<<97>>)), B("y", VS(<<98>>)), B("xs", VL(<<VS(<<97>>), VS(<<98>>)>>)), B("c", VC(<<B("a", VC(<<B("b", VN(1, 0))>>))>>))>>),
   VC(<<B("x", VB(TRUE)), B("y", VB(FALSE)), B("xs", VL(<<VB(TRUE), VNull, VB(FALSE)>>)), B("c", VC(<<B("a", VL(<<VN(1, 0), VN(2, 0)>>))>>))>>),
   VC(<<B("x", VN(5, 0 - 1)), B("y", VN(0 - 3, 0)), B("xs", VL(<<VL(<<VN(1, 0)>>), VL(<<VN(2, 0), VN(3, 0)>>)>>)), B("c", VC(<<B("a", VNull)>>))>>),
-  VC(<<B("x", VL(<<VN(1, 0), VN(2, 0)>>)), B("y", VC(<<B("a", VN(1, 0))>>)), B("xs", VL(<<VC(<<B("a", VN(1, 0))>>), VC(<<B("a", VN(2, 0))>>), VC(<<B("b", VN(3, 0))>>)>>)), B("c", VN(7, 0))>>)
+  VC(<<B("x", VL(<<VN(1, 0), VN(2, 0)>>)), B("y", VC(<<B("a", VN(1, 0))>>)), B("xs", VL(<<VC(<<B("a", VN(1, 0))>>), VC(<<B("a", VN(2, 0))>>), VC(<<B("b", VN(3, 0))>>)>>)), B("c", VN(7, 0)), B("item", VN(5, 0))>>)
 >>
 
 ASSUME \A t \in Exprs : PrintT(<<"EXPR", ToJson([tree |-> t, full |-> RenderFull(t)])>>)
